@@ -57,3 +57,23 @@ Theorem C03_gauge_two_block :
     Sel (half ((sol "U" - 1) - adj (sol "U" - 1))) == 0.
 Proof. intros. eapply gauge_tb; eassumption. Qed.
 Print Assumptions C03_gauge_two_block.
+
+(** End-to-end form of the tie (see Props/C01.v, [C01_tie_conclusions]): for every k_semeq case
+    where [check_alg] and [inputs_ok] evaluate to true, the least-action gauge condition holds for
+    the implementation's tables up to total order N. *)
+From PV.Alg Require Import SemExec SemExecSound TruncTie.
+From PV.Series Require Import Exec.
+From PV.Block Require Import QLemmas QInst.
+Theorem C03_tie_gauge :
+  forall (D k N : nat) (bl : list nat) (msk : list (list bool)) (cb : list bool) (El : list gq)
+         (sols : list (string * tser gq)),
+    check_alg D k N bl msk cb El false sols main_alg = true ->
+    inputs_ok D k N bl msk cb El sols = true ->
+    let BA := BAi D k bl msk cb in
+    let sol := asol D k sols in
+    eqN D k N (Sel (half ((sol "U" - 1) - adj (sol "U" - 1)))) 0.
+Proof.
+  intros D k N bl msk cb El sols H1 H2 BA sol.
+  destruct (tie_conclusions D k N bl msk cb El sols H1 H2) as (_ & _ & _ & _ & _ & _ & g). exact g.
+Qed.
+Print Assumptions C03_tie_gauge.
